@@ -5,6 +5,7 @@ import (
 	crand "crypto/rand"
 	"encoding/hex"
 	"fmt"
+	"io"
 
 	biscuit "github.com/biscuit-auth/biscuit-go/v2"
 
@@ -170,6 +171,40 @@ func c09Run(c *core.C) {
 
 // ---- C17 ---------------------------------------------------------------------------------
 
+// shortReader delivers at most one byte per Read call (allowed by io.Reader).
+type shortReader struct{ src io.Reader }
+
+func (s *shortReader) Read(p []byte) (int, error) {
+	if len(p) == 0 {
+		return 0, nil
+	}
+	return s.src.Read(p[:1])
+}
+
+// counterSource is a stream of 32-byte big-endian counters (every 32-byte draw is distinct,
+// but the leading bytes of consecutive draws are equal) handed out at most 3 bytes per Read:
+// key material assembled from less than a full draw repeats.
+type counterSource struct {
+	n   uint64
+	buf []byte
+}
+
+func (s *counterSource) Read(p []byte) (int, error) {
+	if len(p) == 0 {
+		return 0, nil
+	}
+	if len(s.buf) == 0 {
+		s.n++
+		s.buf = make([]byte, 32)
+		for i := 0; i < 8; i++ {
+			s.buf[31-i] = byte(s.n >> (8 * i))
+		}
+	}
+	n := copy(p[:min(3, len(p))], s.buf)
+	s.buf = s.buf[n:]
+	return n, nil
+}
+
 func c17Run(c *core.C) {
 	r := c.R
 	useCrypto := c.Idx%8 == 0
@@ -187,6 +222,17 @@ func c17Run(c *core.C) {
 		f := newFamily(r, c.Seed, fmt.Sprintf("c17-%d-%d", c.Idx, fam), 0)
 		if useCrypto {
 			f.rng = crand.Reader
+		}
+		if c.Idx%8 == 1 {
+			// a source that legally returns short reads (one byte per Read): key material must
+			// still be 32 fresh bytes, so identifiers stay unique
+			f.rng = &shortReader{src: f.rng}
+			c.Count("short_read_source_cases", 1)
+		}
+		if c.Idx%8 == 2 {
+			// distinct 32-byte draws that share their leading bytes, delivered in short reads
+			f.rng = &counterSource{n: uint64(fam) << 32}
+			c.Count("counter_source_cases", 1)
 		}
 		mk := func() ast.Block { return fixed[r.Intn(len(fixed))] }
 		// same root for all families of the case: identical content + identical signer
